@@ -94,6 +94,9 @@ def classifier(s):
                     return ('MS', True)
                 if xt.endswith('[%s]' % s.Ktxt) and xt.startswith('phi'):
                     return ('AC', True)
+        dm = dtab.is_discr_eq(leaf)
+        if dm is not None and repr(dm[0]) == 'mask':
+            return ('MS', (dm[1] == 1) == dm[2])
         p = dtab.option_leaf(leaf, s.hs + '.right_idx')
         if p is not None:
             return ('RS', p)
